@@ -259,6 +259,11 @@ func (ma *ModAnalysis) instrMods(f *ssa.Function, ins ssa.Instruction, ms *ModSe
 			ms.add("G:recv")
 			ch = true
 		}
+	case *ssa.Send, *ssa.Select:
+		if !ms.Fams["G:recv"] {
+			ms.add("G:recv")
+			ch = true
+		}
 	case *ssa.MapUpdate:
 		k := "M:" + typeStr(x.Map.Type().Underlying().(*types.Map))
 		if !ms.Fams[k] {
